@@ -47,6 +47,7 @@ inductive Outcome
   | ok (changed : Bool)
   | promptError (path : Key)
   | checkoutError (paths : List Key)
+  | unreadable                       -- FileNotFoundError from reading the existing workspace (a link to nothing in it)
   deriving DecidableEq, Repr
 
 def inCache (cache : List Oid) (o : Oid) : Bool := cache.contains o
@@ -131,6 +132,13 @@ def checkout (cfg : Cfg) (cache : List Oid) (ws : Ws) (target : Target)
     | (none, (w2, failed)) =>
       if failed.isEmpty then { outcome := .ok (!cfg.relink), ws := w2 }
       else { outcome := .checkoutError failed, ws := w2 }
+
+/-- `checkout` as called: the existing workspace is read first (`_diff` stages it with `dry_run`); when that fails
+    although the path exists — `broken`: a symbolic link to nothing among its files — the error is passed on and nothing
+    is touched (only a workspace that is not there counts as empty) -/
+def checkoutFrom (cfg : Cfg) (cache : List Oid) (ws : Ws) (broken : Bool) (target : Target)
+    (delOrder : List Key) (workOrder : List Key) : Result :=
+  if broken then { outcome := .unreadable, ws } else checkout cfg cache ws target delOrder workOrder
 
 end DvcData.Checkout
 
